@@ -283,3 +283,90 @@ Lemma thread_result_l t v : st (ps w) t = TDone v -> exited (trace w) t = Some v
 Proof. intros H. destruct (ai_join _ _ _ HA) as [Hd _]. specialize (Hd t). rewrite H in Hd. exact Hd. Qed.
 
 End Statements.
+
+(* ---------------- Thread::start whose pthread_create fails (round 6) ---------------- *)
+(* for ANY world (reachable or not): the move in which a runnable thread executes start() with a failing pthread_create
+   changes nothing but that thread's own position in its script and the history - no primitive, no flag, no handle, no
+   other thread; in particular the Thread object stays unstarted *)
+Lemma failed_start_changes_nothing_l w t c rest :
+  runnable (st (ps w) t) = true -> pc (tc w t) = Idle -> script (tc w t) = ThStartF c :: rest ->
+  let w' := step w (Run t) in
+  ps w' = ps w /\ sigf w' = sigf w /\ monf w' = monf w /\ occ w' = occ w /\ handle w' = handle w /\ mark w' = mark w /\
+  (forall u, u <> t -> tc w' u = tc w u) /\
+  pc (tc w' t) = Idle /\ script (tc w' t) = rest /\ trace w' = EvRet t (ThStartF c) 0 :: trace w.
+Proof.
+  intros Hr Hp Hs. cbn [step]. unfold clear_mark_on_block, step_run. rewrite Hr. cbn [negb]. rewrite Hp, Hs.
+  cbn [begin_op]. wsimpl. destruct (blocked_on MC (st (ps w) t)); cbn [negb andb]; wsimpl; rewrite ?upd_same;
+    repeat split; auto; intros u Hu; rewrite upd_other by auto; rewrite ?upd_other by auto; reflexivity.
+Qed.
+
+(* ... and the retry on the same Thread object succeeds: four moves of the same thread (the failing start, the prologue of the
+   second start, its pthread_create, the return to the creator) leave the handle stored and the child running *)
+(* one move of a thread in state TRun that does not end blocked on MC: the mark bookkeeping is the identity *)
+Lemma step_run_trun w t : st (ps w) t = TRun -> st (ps (step_run w t)) t = TRun -> step w (Run t) = step_run w t.
+Proof.
+  intros H H'. cbn [step]. unfold clear_mark_on_block. rewrite H'. cbn [blocked_on]. rewrite andb_false_r. reflexivity.
+Qed.
+
+Lemma m1 w t c rest : st (ps w) t = TRun -> pc (tc w t) = Idle -> script (tc w t) = ThStartF c :: rest ->
+  step_run w t = finish (set_tc w t {| pc := Idle; script := rest; cur := ThStartF c; tstart := now (ps w); result := result (tc w t) |}) t 0.
+Proof. intros Ht Hp Hs. unfold step_run. rewrite Ht. cbn [runnable negb]. rewrite Hp, Hs. reflexivity. Qed.
+
+Lemma mvB w t c rest : st (ps w) t = TRun -> pc (tc w t) = Idle -> script (tc w t) = ThStart c :: rest -> handle w c = false ->
+  let w' := step w (Run t) in
+  ps w' = ps w /\ handle w' = handle w /\ pc (tc w' t) = ThStartP c /\ script (tc w' t) = rest /\ cur (tc w' t) = ThStart c /\ trace w' = trace w.
+Proof.
+  intros Ht Hp Hs Hh.
+  assert (E : step_run w t = goto (set_tc w t {| pc := Idle; script := rest; cur := ThStart c; tstart := now (ps w); result := result (tc w t) |}) t (ThStartP c)).
+  { unfold step_run. rewrite Ht. cbn [runnable negb]. rewrite Hp, Hs. cbn [begin_op]. wsimpl. rewrite Hh. reflexivity. }
+  cbv zeta. rewrite step_run_trun; auto; rewrite E; wsimpl; rewrite ?upd_same; auto; try (repeat split; reflexivity).
+Qed.
+
+Lemma mvC w t c : st (ps w) t = TRun -> pc (tc w t) = ThStartP c -> st (ps w) c = TNotStarted -> t <> c ->
+  let w' := step w (Run t) in
+  st (ps w') c = TRun /\ st (ps w') t = TRun /\ handle w' = handle w /\ pc (tc w' t) = ThStartRet c /\
+  script (tc w' t) = script (tc w t) /\ cur (tc w' t) = cur (tc w t) /\ trace w' = trace w.
+Proof.
+  intros Ht Hp Hc Htc.
+  assert (E : step_run w t = goto (set_ps w (set_st (ps w) c TRun)) t (ThStartRet c)).
+  { unfold step_run. rewrite Ht. cbn [runnable negb]. rewrite Hp. cbn [pending prim_step]. rewrite Hc. reflexivity. }
+  cbv zeta. rewrite step_run_trun; auto; rewrite E; wsimpl; rewrite ?upd_same; auto.
+  - rewrite upd_other by auto. repeat split; auto.
+  - rewrite upd_other by auto. auto.
+Qed.
+
+Lemma mvD w t c : st (ps w) t = TRun -> pc (tc w t) = ThStartRet c ->
+  let w' := step w (Run t) in
+  ps w' = ps w /\ handle w' c = true /\ pc (tc w' t) = Idle /\ script (tc w' t) = script (tc w t) /\
+  trace w' = EvRet t (cur (tc w t)) 1 :: trace w.
+Proof.
+  intros Ht Hp.
+  assert (E : step_run w t = finish (set_handle w c true) t 1).
+  { unfold step_run. rewrite Ht. cbn [runnable negb]. rewrite Hp. reflexivity. }
+  cbv zeta. rewrite step_run_trun; auto; rewrite E; wsimpl; rewrite ?upd_same; auto; try (repeat split; reflexivity).
+Qed.
+
+Lemma start_after_failed_start_succeeds_l w t c rest :
+  st (ps w) t = TRun -> pc (tc w t) = Idle -> script (tc w t) = ThStartF c :: ThStart c :: rest ->
+  handle w c = false -> st (ps w) c = TNotStarted ->
+  let w' := run w [Run t; Run t; Run t; Run t] in
+  handle w' c = true /\ st (ps w') c = TRun /\ pc (tc w' t) = Idle /\ script (tc w' t) = rest /\
+  trace w' = EvRet t (ThStart c) 1 :: EvRet t (ThStartF c) 0 :: trace w.
+Proof.
+  intros Ht Hp Hs Hh Hc.
+  assert (Htc : t <> c) by (intros ->; congruence).
+  cbn [run fold_left].
+  destruct (failed_start_changes_nothing_l w t c (ThStart c :: rest)) as (A1 & _ & _ & _ & A5 & _ & _ & A8 & A9 & A10);
+    [rewrite Ht; reflexivity|auto|auto|].
+  set (w1 := step w (Run t)) in *.
+  destruct (mvB w1 t c rest) as (B1 & B2 & B3 & B4 & B5 & B6); [rewrite A1; auto|auto|auto|rewrite A5; auto|].
+  set (w2 := step w1 (Run t)) in *.
+  destruct (mvC w2 t c) as (C1 & C2 & C3 & C4 & C5 & C6 & C7); [rewrite B1, A1; auto|auto|rewrite B1, A1; auto|auto|].
+  set (w3 := step w2 (Run t)) in *.
+  destruct (mvD w3 t c) as (D1 & D2 & D3 & D4 & D5); auto.
+  set (w4 := step w3 (Run t)) in *.
+  repeat split; auto.
+  - rewrite D1. auto.
+  - rewrite D4, C5. auto.
+  - rewrite D5, C6, B5, C7, B6, A10. reflexivity.
+Qed.
